@@ -12,6 +12,10 @@ CHECKS = {
    technique="TLA+ spec IntEval: TLC exhaustive + simulated program generation, replay on bgv.Evaluator, TLC trace validation of the recorded run",
    text="TLC checks the evaluator specification (value/scale/level/degree/error rules with the raw=m*scale refinement invariant DecodeExact) exhaustively on a small instance; every behaviour TLC generates (all depth-2/3 programs over small pools, thousands of simulated longer programs over all operand kinds, levels, scales, both modes, three key configurations) is executed on the real bgv.Evaluator and the recorded trace (decrypted raw slots, scale, level, degree, error/panic) must be a behaviour of the specification.",
    note="Trusted: TLC, the specification (transcribed from the doc comments of schemes/bgv/evaluator.go), lattigo's Decryptor/Encoder used as projection, math/big for the constants q_i mod t. Values are exact only over the model's 4-entry vectors, which the harness expands to all slots and re-checks per slot."),
+ "C08": dict(spec="Stream / StreamGen / StreamTrace", design="DESIGN.md §5 C08",
+   technique="TLA+ spec Stream (wire of segments, entry points, receiver prior state, chunking, faults): TLC exhausts the model and generates the scenarios; real (de)serialisation traces validated by TLC",
+   text="TLC model-checks the stream model (composability, prefix consumption) and enumerates every scenario (object x write entry x read entry x prior receiver state x chunking; multi-object streams by simulation); each scenario and a fault sweep (truncation at every offset class, single-byte header corruption, writers failing at sampled offsets, JSON codecs) run on 29 serialisable type classes / 79 values of the real library, and the recorded sizes, counts, digests, consumed bytes, equality and error/panic/allocation outcomes must be a behaviour of the specification.",
+   note="Trusted: TLC, the Stream specification, the harness' equality (re-encoding + Equal methods both ways), runtime.MemStats for allocation. Objects are built on LogN 4-6 parameters. bgv/ckks Parameters entry-point mismatch is a recorded known finding."),
  "C09": dict(spec="IntEval (frame) ...", design="DESIGN.md §5 C09",
    technique="TLA+ spec IntEval with frame condition: TLC-generated programs with all aliasing patterns replayed on poisoned evaluators, TLC trace validation",
    text="Same generated programs as C05, with the frame condition switched on in the trace specification: after every call every register other than the designated output, and every non-ciphertext operand (*big.Int, slices, plaintexts) must be bit-for-bit unchanged; outputs aliased with op0/op1 and outputs that previously held a larger degree or level must produce the model's (alias-independent) value; all evaluator scratch buffers are filled with garbage before every call so residue dependence shows as a wrong value.",
